@@ -169,8 +169,15 @@ Proof.
 Qed.
 
 (* ---------------------------------------------------------------- ingestion *)
+Section I.
+Variable json : bool.
+Variable py_json : text -> option text.
+Notation clean := (Server.clean json py_json).
+Notation ingest_line := (Server.ingest_line json py_json).
+Notation ingest := (Server.ingest json py_json).
+
 Definition value_line (raw : text) : option (text * text * text) :=
-  let line := rstrip_set [34; 44]%N (strip raw) in
+  let line := clean raw in
   if contains s_RESTRICTED line || contains s_UNDEFINED line then None
   else match line_to_command line with
        | Some (s, f, v) => if teqb v s_q then None else Some (s, f, v)
@@ -182,8 +189,8 @@ Theorem ingest_value_line st cmd raw s f v :
   value_line raw = Some (s, f, v) ->
   fst (ingest_line (st, cmd) raw) = add_data st s f v.
 Proof.
-  unfold value_line, ingest_line.
-  set (line := rstrip_set [34; 44]%N (strip raw)). cbn zeta.
+  unfold value_line, Server.ingest_line.
+  set (line := clean raw). cbn zeta.
   destruct (contains s_RESTRICTED line) eqn:R; [discriminate|].
   destruct (contains s_UNDEFINED line) eqn:U; [discriminate|]. cbn [orb].
   destruct (line_to_command line) as [[[s' f'] v']|] eqn:L; [|discriminate].
@@ -194,7 +201,7 @@ Qed.
 (* an error line never overwrites a value: it can only turn "nothing known" into the error marker,
    and only for the command it follows *)
 Theorem ingest_error_line st cs cf cv raw :
-  let line := rstrip_set [34; 44]%N (strip raw) in
+  let line := clean raw in
   contains s_RESTRICTED line || contains s_UNDEFINED line = true ->
   let st' := fst (ingest_line (st, Some (cs, cf, cv)) raw) in
   forall s f,
@@ -203,7 +210,7 @@ Theorem ingest_error_line st cs cf cv raw :
       then (if contains s_RESTRICTED line then s_RESTRICTED else s_UNDEFINED)
       else get_data st s f.
 Proof.
-  intros line H st' s f. unfold st', ingest_line. fold line. rewrite H. cbn [fst].
+  intros line H st' s f. unfold st', Server.ingest_line. fold line. rewrite H. cbn [fst].
   destruct (teqb (get_data st cs cf) s_UNDEFINED) eqn:E; cbn [andb fst]; [|reflexivity].
   destruct (teqb s cs) eqn:Es; destruct (teqb f cf) eqn:Ef; cbn [andb].
   - apply teqb_eq in Es. apply teqb_eq in Ef. subst. apply get_add_same.
@@ -258,8 +265,8 @@ Lemma ingest_line_ok acc raw :
   store_ok (fst acc) -> (forall s f v, snd acc = Some (s, f, v) -> key_ok s f) ->
   store_ok (fst (ingest_line acc raw)) /\ (forall s f v, snd (ingest_line acc raw) = Some (s, f, v) -> key_ok s f).
 Proof.
-  destruct acc as [st cmd]. cbn [fst snd]. intros Hok Hc. unfold ingest_line.
-  set (line := rstrip_set [34; 44]%N (strip raw)).
+  destruct acc as [st cmd]. cbn [fst snd]. intros Hok Hc. unfold Server.ingest_line.
+  set (line := clean raw).
   assert (P : forall st0, store_ok st0 ->
              store_ok (fst (match line_to_command line with
                             | Some (s', f', v') => (if teqb v' s_q then st0 else add_data st0 s' f' v', Some (s', f', v'))
@@ -283,7 +290,7 @@ Qed.
 
 Theorem ingest_store_ok lines : store_ok (ingest lines).
 Proof.
-  unfold ingest.
+  unfold Server.ingest.
   assert (G : forall ls acc, store_ok (fst acc) -> (forall s f v, snd acc = Some (s, f, v) -> key_ok s f) ->
               store_ok (fst (fold_left ingest_line ls acc))).
   { induction ls as [|l r IH]; intros acc A B; [exact A|].
@@ -291,11 +298,13 @@ Proof.
   apply G; [intros s fs k v []|intros; discriminate].
 Qed.
 
+End I.
+
 (* ---------------------------------------------------------------- the handler *)
 Lemma cfg_eqb_good c : cfg_eqb c good_cfg = true -> c = good_cfg.
 Proof.
-  destruct c as [a1 a2 rel a3 a4 a5 a6 a7]. unfold cfg_eqb, good_cfg.
-  cbn [g_inp_get g_scene_get g_rel g_vol_try g_pb_guard g_err_exact g_rel_exact g_lenient].
+  destruct c as [a1 a2 rel a3 a4 a5 a6 a7 a8 a9 a10]. unfold cfg_eqb, good_cfg.
+  cbn [g_inp_get g_scene_get g_rel g_vol_try g_pb_guard g_err_exact g_rel_exact g_lenient g_inp_none g_scene_sent g_vol_ovf].
   intro H. repeat (apply andb_true_iff in H as [H ?]).
   repeat match goal with X : Bool.eqb _ _ = true |- _ => apply eqb_prop in X; subst end.
   match goal with X : list_bool_eqb rel good_rel = true |- _ => rename X into R end.
@@ -311,7 +320,7 @@ Section H.
   Variable related : list (text * list text).
   Variable inp_map : list (text * list text).
   Variable zones : list text.
-  Variable py_float : text -> option (Z * positive).
+  Variable py_float : text -> option fl.
   Variable py_int : text -> option Z.
   Variable py_str_float : Z * positive -> text.
 
@@ -335,9 +344,9 @@ Section H.
   (* C19: with every guard in place no line makes the handler raise *)
   Theorem handle_get1_total fuel : forall st s f b, exists r, handle_get1 fuel st s f b = Ok r.
   Proof.
-    induction fuel as [|n IH]; intros st s f b; cbn [Server.handle_get1 g_inp_get g_scene_get good_cfg]; [eauto|].
+    induction fuel as [|n IH]; intros st s f b; cbn [Server.handle_get1 g_inp_get g_scene_get g_inp_none g_scene_sent good_cfg]; [eauto|].
     destruct (teqb s s_SYS && teqb f s_INPNAME). { destruct (assoc s_SYS st); eauto. }
-    destruct (teqb f s_SCENENAME). { destruct (assoc s st); [destruct (filter _ _)|]; eauto. }
+    destruct (teqb f s_SCENENAME). { destruct (assoc s st); eauto. }
     destruct (teqb f s_DIRMODE).
     { destruct (send_stored good_cfg st s f b) as [out [x|]]; [|eauto].
       destruct (teqb x s_On); [|eauto]. destruct (IH st s s_STRAIGHT b) as [r E]. rewrite E. eauto. }
@@ -372,11 +381,10 @@ Section H.
 
   Theorem put_value_total st s f v : exists r, put_value st s f v = Ok r.
   Proof.
-    unfold Server.put_value. cbn [g_vol_try good_cfg]. destruct (relative good_cfg f v); [|eauto].
-    destruct (split_space v []) as [|p0 [|p1 ps]].
-    - eauto.
-    - destruct (py_float _) as [[cn cd]|]; eauto.
-    - destruct (py_int p1); [destruct (py_float _) as [[cn cd]|]|]; eauto.
+    unfold Server.put_value. cbn [g_vol_try g_vol_ovf good_cfg]. destruct (relative good_cfg f v); [|eauto].
+    match goal with |- context [match ?a with Some _ => _ | None => _ end] => destruct a as [[an ad]|] end; [|eauto].
+    destruct (py_float _) as [x|]; [|eauto].
+    destruct (int_overflows an && _); [eauto|]. destruct x; eauto.
   Qed.
 
   Theorem handle_put_total st s f v :
@@ -427,25 +435,55 @@ Section H.
   Proof.
     intros F P R M N. unfold Server.handle_put, Server.put_value. rewrite R, M, relative_good, F, P, N.
     cbn [andb g_vol_try good_cfg].
-    destruct (split_space v []) as [|p0 [|p1 ps]]; try reflexivity.
-    destruct (py_int p1); reflexivity.
+    match goal with |- context [match ?a with Some _ => _ | None => _ end] => destruct a as [[an ad]|] end; reflexivity.
   Qed.
 
-  (* a well-formed relative step stores current +/- amount (default one half) *)
+  (* a well-formed relative step on a finite level stores current +/- amount (default one half) *)
   Theorem put_volume_relative_ok st s f v cn cd :
     (teqb f s_VOL || teqb f s_ZONEBVOL) = true -> (starts_with s_Up v || starts_with s_Down v) = true ->
-    py_float (get_data st s f) = Some (cn, cd) ->
+    py_float (get_data st s f) = Some (Fin cn cd) ->
     forall an ad,
       (match split_space v [] with
        | [_] => Some (1%Z, 2%positive)
        | _ :: p :: _ => match py_int p with Some z => Some (z, 1%positive) | None => None end
        | [] => None
        end) = Some (an, ad) ->
+      int_overflows an = false ->
       let sgn := if starts_with s_Up v then 1%Z else (-1)%Z in
       put_value st s f v = Ok (Some (py_str_float ((cn * Zpos ad + sgn * an * Zpos cd)%Z, (cd * ad)%positive))).
   Proof.
-    intros F P N an ad A. unfold Server.put_value. rewrite relative_good, F, P. cbn [andb].
-    rewrite A, N. reflexivity.
+    intros F P N an ad A O. unfold Server.put_value. rewrite relative_good, F, P. cbn [andb].
+    rewrite A, N, O. reflexivity.
+  Qed.
+
+  (* C18: every GET is answered with at least one line (a value, or the error line when there is none) *)
+  Lemma send_stored_answers st s f : fst (send_stored good_cfg st s f false) <> [].
+  Proof. unfold send_stored. destruct (err_value _ _); cbn; discriminate. Qed.
+
+  Lemma handle_get1_answers n st s f out : handle_get1 (S n) st s f false = Ok out -> out <> [].
+  Proof.
+    cbn [Server.handle_get1 g_inp_get g_scene_get g_inp_none g_scene_sent good_cfg].
+    destruct (teqb s s_SYS && teqb f s_INPNAME).
+    { destruct (assoc s_SYS st); intros [= <-]; [|discriminate].
+      match goal with |- (match ?o with [] => _ | _ => _ end) <> [] => destruct o; discriminate end. }
+    destruct (teqb f s_SCENENAME).
+    { destruct (assoc s st); intros [= <-]; [|discriminate].
+      match goal with |- (match ?o with [] => _ | _ => _ end) <> [] => destruct o; discriminate end. }
+    destruct (teqb f s_DIRMODE).
+    { pose proof (send_stored_answers st s f) as A.
+      destruct (send_stored good_cfg st s f false) as [o [x|]]; cbn [fst] in A.
+      - destruct (teqb x s_On); [|intros [= <-]; exact A].
+        destruct (handle_get1 n st s s_STRAIGHT false); [|discriminate].
+        intros [= <-]. destruct o; [contradiction|discriminate].
+      - intros [= <-]. exact A. }
+    destruct (teqb f s_STRAIGHT && _); intros [= <-]; [discriminate|apply send_stored_answers].
+  Qed.
+
+  Theorem get_always_answered st s f out : handle_get st s f = Ok out -> out <> [].
+  Proof.
+    unfold Server.handle_get. destruct (assoc f multi) as [ms|].
+    - destruct (get_members st s ms) as [[|x o]|]; [| |discriminate]; intros [= <-]; discriminate.
+    - apply handle_get1_answers.
   Qed.
 
   (* ---------------------------------------------------------------- C18: ordinary GET / PUT *)
@@ -540,7 +578,13 @@ Section H.
 End H.
 
 (* ---------------------------------------------------------------- ingestion keeps the last value *)
-Definition clean (raw : text) : text := rstrip_set [34; 44]%N (strip raw).
+Section I2.
+Variable json : bool.
+Variable py_json : text -> option text.
+Notation clean := (Server.clean json py_json).
+Notation ingest_line := (Server.ingest_line json py_json).
+Notation ingest := (Server.ingest json py_json).
+Notation value_line := (value_line json py_json).
 
 (* a line that does not name (s, f) with a value leaves a known value of (s, f) alone *)
 Lemma ingest_line_preserves st cmd raw s f :
@@ -548,7 +592,7 @@ Lemma ingest_line_preserves st cmd raw s f :
   (forall v', line_to_command (clean raw) = Some (s, f, v') -> v' = s_q) ->
   get_data (fst (ingest_line (st, cmd) raw)) s f = get_data st s f.
 Proof.
-  intros Hv Hn. unfold ingest_line. fold (clean raw).
+  intros Hv Hn. unfold Server.ingest_line.
   assert (P : forall c, fst (match line_to_command (clean raw) with
                          | Some (s', f', v') => (if teqb v' s_q then st else add_data st s' f' v', Some (s', f', v'))
                          | None => (st, c) end) = fst (match line_to_command (clean raw) with
@@ -592,10 +636,10 @@ Theorem ingest_last_value pre l post s f v :
   Forall (fun raw => forall v', line_to_command (clean raw) = Some (s, f, v') -> v' = s_q) post ->
   get_data (ingest (pre ++ l :: post)) s f = v.
 Proof.
-  intros Hl Hv Hp. unfold ingest. rewrite fold_left_app. cbn [fold_left].
+  intros Hl Hv Hp. unfold Server.ingest. rewrite fold_left_app. cbn [fold_left].
   destruct (fold_left ingest_line pre ([], None)) as [st0 cmd0].
   destruct (ingest_line (st0, cmd0) l) as [st1 cmd1] eqn:E1.
-  pose proof (ingest_value_line st0 cmd0 l s f v Hl) as P. rewrite E1 in P. cbn [fst] in P.
+  pose proof (ingest_value_line json py_json st0 cmd0 l s f v Hl) as P. rewrite E1 in P. cbn [fst] in P.
   assert (G : get_data st1 s f = v) by (rewrite P; apply get_add_same).
   rewrite ingest_fold_preserves; [exact G|now rewrite G|exact Hp].
 Qed.
@@ -611,7 +655,7 @@ Proof.
   inversion Hp as [|? ? H1 H2]; subst. cbn [fold_left].
   destruct (ingest_line (st, cmd) raw) as [st1 cmd1] eqn:E1.
   assert (K : get_data st1 s f = s_UNDEFINED /\ forall cs cf cv, cmd1 = Some (cs, cf, cv) -> cs <> s \/ cf <> f).
-  { revert E1. unfold ingest_line. fold (clean raw).
+  { revert E1. unfold Server.ingest_line.
     assert (C : forall c, (forall cs cf cv, c = Some (cs, cf, cv) -> cs <> s \/ cf <> f) ->
                 forall st1 cmd1, match line_to_command (clean raw) with
                 | Some (s', f', v') => (if teqb v' s_q then st else add_data st s' f' v', Some (s', f', v'))
@@ -641,8 +685,10 @@ Theorem ingest_unnamed ls s f :
   Forall (fun raw => forall v', line_to_command (clean raw) <> Some (s, f, v')) ls ->
   get_data (ingest ls) s f = s_UNDEFINED.
 Proof.
-  intro H. unfold ingest. apply ingest_fold_unnamed; [reflexivity|intros; discriminate|exact H].
+  intro H. unfold Server.ingest. apply ingest_fold_unnamed; [reflexivity|intros; discriminate|exact H].
 Qed.
+End I2.
+
 
 (* ---------------------------------------------------------------- every reply is a well-formed line *)
 Definition sub_ok (s : text) : bool :=
@@ -719,7 +765,7 @@ Section W.
   Variable related : list (text * list text).
   Variable inp_map : list (text * list text).
   Variable zones : list text.
-  Variable py_float : text -> option (Z * positive).
+  Variable py_float : text -> option fl.
   Variable py_int : text -> option Z.
   Variable py_str_float : Z * positive -> text.
 
@@ -775,26 +821,25 @@ Section W.
   Lemma handle_get1_wf fuel : forall st s f b out, store_ok st -> sub_ok s = true -> fn_ok f = true ->
     handle_get1 G fuel st s f b = Ok out -> Forall wf out.
   Proof.
-    induction fuel as [|n IH]; intros st s f b out Hok Hs Hf; cbn [handle_get1 g_inp_get g_scene_get good_cfg].
+    induction fuel as [|n IH]; intros st s f b out Hok Hs Hf; cbn [handle_get1 g_inp_get g_scene_get g_inp_none g_scene_sent good_cfg].
     { intros [= <-]. constructor. }
+    assert (WU : Forall wf [s_UNDEFINED]) by (constructor; [now apply wf_err|constructor]).
     destruct (teqb s s_SYS && teqb f s_INPNAME) eqn:E1.
     - apply andb_true_iff in E1 as [E1 _]. apply teqb_eq in E1. subst s.
-      destruct (assoc s_SYS st) as [fs|] eqn:A; intros [= <-]; [|constructor].
+      destruct (assoc s_SYS st) as [fs|] eqn:A; intros [= <-]; [|exact WU].
+      match goal with |- Forall wf (match ?o with [] => _ | _ => _ end) => assert (W : Forall wf o); [|destruct o; [exact WU|exact W]] end.
       apply Forall_flat_map. intros k Hk.
       match goal with |- Forall wf (if ?cnd then _ else _) => destruct cnd end; [|constructor].
       apply send_stored_wf; [exact Hs|].
       assert (K : key_ok s_SYS k) by (apply (store_key_ok st s_SYS k Hok); now rewrite A).
       now apply key_ok_iff in K.
     - destruct (teqb f s_SCENENAME).
-      + destruct (assoc s st) as [fs|] eqn:A.
-        * match goal with |- (match ?ks with [] => _ | _ => _ end) = _ -> _ => remember ks as ks0 eqn:Eks end.
-          destruct ks0 as [|k0 kr]; intros [= <-]; [constructor; [now apply wf_err|constructor]|].
-          change (Forall wf (flat_map (fun k => fst (send_stored G st s k true)) (k0 :: kr))).
-          apply Forall_flat_map. intros k Hk. apply send_stored_wf; [exact Hs|].
-          rewrite Eks in Hk. apply filter_In in Hk as [Hk _].
-          assert (K : key_ok s k) by (apply (store_key_ok st s k Hok); now rewrite A).
-          now apply key_ok_iff in K.
-        * intros [= <-]. constructor; [now apply wf_err|constructor].
+      + destruct (assoc s st) as [fs|] eqn:A; intros [= <-]; [|exact WU].
+        match goal with |- Forall wf (match ?o with [] => _ | _ => _ end) => assert (W : Forall wf o); [|destruct o; [exact WU|exact W]] end.
+        apply Forall_flat_map. intros k Hk. apply send_stored_wf; [exact Hs|].
+        apply filter_In in Hk as [Hk _].
+        assert (K : key_ok s k) by (apply (store_key_ok st s k Hok); now rewrite A).
+        now apply key_ok_iff in K.
       + destruct (teqb f s_DIRMODE).
         * pose proof (send_stored_wf st s f b Hs Hf) as W.
           destruct (send_stored G st s f b) as [o [x|]]; cbn [fst] in W; [|intros [= <-]; exact W].
@@ -1015,10 +1060,15 @@ Section Replay.
   Variable related : list (text * list text).
   Variable inp_map : list (text * list text).
   Variable zones : list text.
-  Variable py_float : text -> option (Z * positive).
+  Variable py_float : text -> option fl.
   Variable py_int : text -> option Z.
   Variable py_str_float : Z * positive -> text.
+  Variable json : bool.
+  Variable py_json : text -> option text.
   Notation srv := (srv good_cfg multi related inp_map zones py_float py_int py_str_float).
+  Notation clean := (Server.clean json py_json).
+  Notation ingest := (Server.ingest json py_json).
+  Notation value_line := (value_line json py_json).
 
   (* C18, the headline: loaded from ANY recording, the server answers a GET of an ordinary function with
      the last value the recording holds for it ... *)
@@ -1034,7 +1084,7 @@ Section Replay.
       destruct (teqb v' s_q); [discriminate|]. injection Hl as <- <- <-. eapply line_to_command_key_ok; eauto. }
     assert (Hv : v <> s_UNDEFINED) by (intros ->; discriminate).
     unfold Server.srv. rewrite (query_line_parses s f K). rewrite teqb_refl.
-    rewrite (get_ordinary multi _ s f Ho), (ingest_last_value pre l post s f v Hl Hv Hp), He. reflexivity.
+    rewrite (get_ordinary multi _ s f Ho), (ingest_last_value json py_json pre l post s f v Hl Hv Hp), He. reflexivity.
   Qed.
 
   (* ... and with an error line when the recording never names it *)
@@ -1044,7 +1094,7 @@ Section Replay.
     srv (ingest ls) (fmt_cmd s f s_q) = Ok (ingest ls, [s_UNDEFINED]).
   Proof.
     intros K Ho Hp. unfold Server.srv. rewrite (query_line_parses s f K), teqb_refl.
-    rewrite (get_ordinary multi _ s f Ho), (ingest_unnamed ls s f Hp). reflexivity.
+    rewrite (get_ordinary multi _ s f Ho), (ingest_unnamed json py_json ls s f Hp). reflexivity.
   Qed.
 End Replay.
 
